@@ -308,7 +308,7 @@ func runC10_5(c *core.Ctx) {
 		// rbPool.Put(b.rb) followed by b.rb = nil
 		hasPut := false
 		for _, call := range callsIn(f.Decl.Body, false) {
-			if cf := flow.CalleeFunc(f.Info, call); cf != nil && cf.Name() == "Put" && cf.Pkg() != nil && cf.Pkg().Name() == "ringbuffer" {
+			if cf := flow.CalleeFunc(f.Info, call); cf != nil && nameOf(cf) == "Put" && cf.Pkg() != nil && cf.Pkg().Name() == "ringbuffer" {
 				hasPut = true
 			}
 		}
@@ -322,7 +322,7 @@ func runC10_5(c *core.Ctx) {
 				flow.Events(n, func(x ast.Node) {
 					switch y := x.(type) {
 					case *ast.CallExpr:
-						if cf := flow.CalleeFunc(f.Info, y); cf != nil && cf.Name() == "Put" && cf.Pkg() != nil && cf.Pkg().Name() == "ringbuffer" {
+						if cf := flow.CalleeFunc(f.Info, y); cf != nil && nameOf(cf) == "Put" && cf.Pkg() != nil && cf.Pkg().Name() == "ringbuffer" {
 							s = sPut
 						}
 					case *ast.AssignStmt:
@@ -370,7 +370,7 @@ func runC10_5(c *core.Ctx) {
 							c.Check(before&1 != 0, f.Name, "defer done() before rb."+name, call.Pos(), "hand-back of a drained ring is registered before consuming", "the ring is consumed before done() is deferred")
 						}
 					}
-					if cf := flow.CalleeFunc(f.Info, call); cf != nil && cf.Name() == "instance" && name == "WriteTo" {
+					if cf := flow.CalleeFunc(f.Info, call); cf != nil && nameOf(cf) == "instance" && name == "WriteTo" {
 						c.Check(before&1 != 0, f.Name, "defer done() before rb."+name, call.Pos(), "hand-back of a drained ring is registered before consuming", "the ring is consumed before done() is deferred")
 					}
 				}
@@ -395,7 +395,7 @@ func runC10_7(c *core.Ctx) {
 				return nil, nil, 0, false
 			}(); ok && op == token.GTR && flow.ObjOf(f.Info, x) == types.Object(f.param(0)) {
 				if call, ok := ast.Unparen(y).(*ast.CallExpr); ok {
-					if cf := flow.CalleeFunc(f.Info, call); cf != nil && cf.Name() == "Buffered" && flow.ObjOf(f.Info, flow.Recv(call)) == types.Object(f.recvVar()) {
+					if cf := flow.CalleeFunc(f.Info, call); cf != nil && nameOf(cf) == "Buffered" && flow.ObjOf(f.Info, flow.Recv(call)) == types.Object(f.recvVar()) {
 						okk = true
 					}
 				}
@@ -459,7 +459,7 @@ func runC10_7(c *core.Ctx) {
 		returnsShort := false
 		for _, st := range is.Body.List {
 			if r, ok := st.(*ast.ReturnStmt); ok && len(r.Results) == 2 {
-				if o := flow.ObjOf(f.Info, r.Results[1]); o != nil && o.Name() == "ErrShortBuffer" {
+				if o := flow.ObjOf(f.Info, r.Results[1]); o != nil && nameOf(o) == "ErrShortBuffer" {
 					returnsShort = true
 				}
 			}
